@@ -6,6 +6,14 @@ HERE = os.path.dirname(os.path.dirname(os.path.abspath(__file__)))
 
 CHECKS = {
  # id: (design section, claim text, level note, technique)
+ "C19": ("5 C19",
+  "Functional contracts on imports.matchTag (rune loop with an inductive invariant), matchTags (recursive; comma = AND, !, !!), matchOS and MatchFile: each result equals a specification "
+  "written from the build-constraint rules (android also selects linux, tags[\"*\"] accepts everything but ignore), for every name and every non-nil tag map; ShouldBuild is proved memory-safe "
+  "(all slice/index expressions incl. f[0]) and its line evaluation goes through matchTags' contract; its block/line structure is compared with go/build/constraint by a bounded stand-in.",
+  "assumed: extern contracts for strings.Index/Split/Fields/HasPrefix, bytes.IndexByte/TrimSpace/HasPrefix, unicode.IsLetter/IsDigit (uninterpreted), UTF-8 decoding (uninterpreted runeAt/runeW); "
+  "nil tag maps are outside the contracts (requires tags != nil); MatchFile's specification is close to the code (spec-near) except for the OS-selection rule; "
+  "bounded: ShouldBuild vs go/build/constraint over blocks of up to 4 (quick) / 5 (thorough) lines from an 8-line vocabulary and 4 tag sets",
+  "contract-based deductive verification (VCs over go/ssa incl. a recursive spec function and a rune-iteration invariant, z3/cvc5) plus a labelled bounded stand-in for ShouldBuild's block structure"),
  "C15": ("5 C15",
   "Contract on txtar.Write over a ghost file-system model: every file that exists afterwards and did not before lies at or below dir (lexically), "
   "files that existed are neither removed nor changed (the open uses O_CREATE|O_EXCL, checked as a call-site obligation), a nil error implies that no entry name was absolute or climbed out through '..', "
